@@ -42,7 +42,7 @@ Digits(n)   == IF n < 10 THEN <<48 + n>> ELSE Digits(n \div 10) \o <<48 + (n % 1
 
 \* policies:  ws   "min" | "one" | "all" | "cmt"
 \*            eol  "lf" | "cr" | "crlf"     (comment terminator)
-\*            str  "lit" | "oct" | "octmix" | "octmin" | "cont" | "hex" | "hexws"
+\*            str  "lit" | "oct" | "octmix" | "octmin" | "cont" | "contraw" | "hex" | "hexws"
 \*            name "plain" | "esc"
 Eol(P) == CASE P.eol = "lf" -> <<10>> [] P.eol = "cr" -> <<13>> [] P.eol = "crlf" -> <<13, 10>>
 
@@ -72,6 +72,9 @@ SpellStr(t, P) ==
       \* a backslash followed by an end-of-line marker is a line continuation (ignored)
       \* (LF is written as \n here: a raw LF after a continuation ending in CR would read as CRLF)
       [] P.str = "cont" -> <<40>> \o Flat([i \in 1..Len(b) |-> (IF b[i] = 10 THEN <<92, 110>> ELSE LitByte(b[i])) \o (IF i = 1 THEN <<92>> \o Eol(P) ELSE <<>>)]) \o <<41>>
+      \* the same continuation, followed by raw data: after a continuation that ends in LF (or CRLF) a raw LF is
+      \* string data (after one that ends in CR it would be the second half of the end-of-line marker: written \n there)
+      [] P.str = "contraw" -> <<40>> \o Flat([i \in 1..Len(b) |-> (IF b[i] = 10 /\ P.eol = "cr" THEN <<92, 110>> ELSE LitByte(b[i])) \o (IF i = 1 THEN <<92>> \o Eol(P) ELSE <<>>)]) \o <<41>>
       [] P.str = "hex"  -> <<60>> \o Flat([i \in 1..Len(b) |-> HexByte(b[i])]) \o <<62>>
       \* lower case, white space between digits, final 0 digit omitted (7.3.4.3)
       [] P.str = "hexws" -> <<60>> \o Flat([i \in 1..Len(b) |->
